@@ -30,6 +30,9 @@ type Scenario struct {
 	// UnorderedSUT: the code under test ranges over a Go map whose order the harness cannot own; a finding is
 	// confirmed by its violation key reproducing in two of up to eight replays instead of by identical replays
 	UnorderedSUT bool
+	// MaxExec > 0 caps the number of executions (the evidence then says exhaustive: false for the scenario unless
+	// the space was smaller); used for long whole runs where the first executions are what is wanted
+	MaxExec int64
 }
 
 // WithPlainPoints returns the scenario with writes to plain shared memory as
@@ -143,7 +146,7 @@ func newExplorer(sc Scenario) *Explorer {
 	if sc.EarlyWindow == 0 {
 		sc.EarlyWindow = 2 * time.Second
 	}
-	return &Explorer{SelectFairness: 3, EarlyWindow: int64(sc.EarlyWindow), Name: sc.Name, Delay: sc.Delay, UseMemo: sc.Memo, MaxSteps: sc.MaxSteps, Horizon: h, Body: sc.Body, Post: sc.Post, UnorderedSUT: sc.UnorderedSUT}
+	return &Explorer{SelectFairness: 3, EarlyWindow: int64(sc.EarlyWindow), Name: sc.Name, Delay: sc.Delay, UseMemo: sc.Memo, MaxSteps: sc.MaxSteps, Horizon: h, Body: sc.Body, Post: sc.Post, UnorderedSUT: sc.UnorderedSUT, MaxExec: sc.MaxExec}
 }
 
 func runScenario(sc Scenario, deadline time.Time, si, sn int) scenarioReport {
